@@ -146,4 +146,18 @@ def delRecursive (st : St) (k : List Bytes) : St :=
 def delExact (st : St) (k : List Bytes) : St :=
   { st with objs := st.objs.filter fun o => o.key ≠ k }
 
+/-- the empty-folder purge after a batch delete (`doDeleteEmptyDirectories`): the parent "directory" of every
+    deleted (or absent) name is deleted non-recursively, then its parent, … — a parent that is an OBJECT is
+    deleted too; a non-empty directory stops the walk -/
+def purgeUp : Nat → St → List Bytes → St
+  | 0, st, _ => st
+  | fuel + 1, st, anc =>
+    if anc = [] then st
+    else if (findObj st anc).isSome then purgeUp fuel (delExact st anc) anc.dropLast
+    else if st.objs.any (fun o => isUnder anc o.key) then st
+    else purgeUp fuel st anc.dropLast
+
+/-- batch delete of one name, with the purge that follows it -/
+def delBatchName (st : St) (k : List Bytes) : St := purgeUp 16 (delExact st k) k.dropLast
+
 end SwV.Model.C28
